@@ -7,6 +7,8 @@ package types
 import (
 	"sync"
 	"sync/atomic"
+
+	"github.com/zishang520/engine.io/v2/vhook"
 )
 
 // Map is like a Go map[any]any but is safe for concurrent use
@@ -124,6 +126,7 @@ func (m *Map[TKey, TValue]) Load(key TKey) (value TValue, ok bool) {
 	read := m.loadReadOnly()
 	e, ok := read.m[key]
 	if !ok && read.amended {
+		vhook.Yield("map.Load.missed")
 		m.mu.Lock()
 		// Avoid reporting a spurious miss if m.dirty got promoted while we were
 		// blocked on m.mu. (If further loads of the same key will not miss, it's
@@ -297,6 +300,7 @@ func (m *Map[TKey, TValue]) LoadAndDelete(key TKey) (value TValue, loaded bool) 
 	read := m.loadReadOnly()
 	e, ok := read.m[key]
 	if !ok && read.amended {
+		vhook.Yield("map.LoadAndDelete.missed")
 		m.mu.Lock()
 		read = m.loadReadOnly()
 		e, ok = read.m[key]
@@ -431,6 +435,7 @@ func (m *Map[TKey, TValue]) CompareAndDelete(key TKey, old TValue) (deleted bool
 	read := m.loadReadOnly()
 	e, ok := read.m[key]
 	if !ok && read.amended {
+		vhook.Yield("map.CompareAndDelete.missed")
 		m.mu.Lock()
 		read = m.loadReadOnly()
 		e, ok = read.m[key]
